@@ -27,6 +27,12 @@ CHECKS = {
  "C16": ("exploration", "registry-discovered authority messages x hostile authorities on state branches with full multistore diff; compare-and-set monitor for raw store updates",
          "Held on the (type, payload, authority) triples explored: every routable message with an authority field is discovered from the interface registry; rejected variants must leave the complete multistore byte-identical (also when the handler is run without the tx-level discard), positive controls with the governance authority must succeed.",
          "Types without a curated valid payload are listed as uncovered in the evidence (2 IBC-core types).", "4 C16"),
+ "C12": ("exploration", "differential checkpoint check against an independent abi.encode + re-verification monitor over the confirm stores under hostile submissions",
+         "Held on the objects and submissions explored: fx-core's three checkpoint digests (Ethereum-style and Tron) are compared with an independently written abi.encode over random and boundary-valued objects; on the real app every stored confirmation is re-verified (signer, bridger, object, uniqueness) after each honest, malformed, malleated, transplanted or duplicate submission.",
+         "The deployed contract cannot be executed here; it is represented by harness/abienc written from FxBridgeLogic.sol. ECDSA recovery is trusted.", "4 C12"),
+ "C13": ("exploration", "store/index cross-check, stake-movement accounting and slash-justification monitor over generated oracle life-cycle histories with real unbonding",
+         "Held on the histories observed: after every operation the raw oracle records and both lookup indexes are cross-checked; bond / add-delegate / re-delegate / removal / unbond are measured on bank and staking state; each oracle taken offline in an end block must have an aged unconfirmed object created after it joined; the remove -> mature (21 days virtual time, real staking end blocker) -> withdraw cycle is completed and repeated.",
+         "Zero inflation and zero fees in the harness genesis make 'stake minus penalties' an exact amount.", "4 C13"),
 }
 NOT_YET = {}
 def load_props():
